@@ -184,6 +184,19 @@ def run(ctx):
             ctx.fail('returned-array-changed-after-file-removed', key0, observed=fin)
         if fin['leak_end'] != [0, 0]:
             ctx.fail('leak-at-end', key0, observed=fin)
+    # accesses that fail because a warning is turned into an error: nothing may stay open
+    W = [dict(dtype='int32', accesses=['get', 'set', 'iter', 'ctx', 'fresh', 'get']), dict(dtype='>f8', accesses=['set', 'get', 'ctx'])]
+    for case, ob in zip(W, ctx.run_impl(W, 'warnerr')):
+        key = dict(scenario='warnings are errors, description from a newer library version', **case)
+        if isinstance(ob, dict):
+            ctx.fail('harness-error', key, observed=ob); continue
+        ctx.seen(key); ctx.count('warnerr')
+        for st in ob:
+            ctx.evaluations += 1
+            if st['leak'] != [0, 0]:
+                ctx.fail('fd-or-map-leak-after-failed-access:' + st['what'], key, expected=[0, 0], observed=st)
+        if ob[-1]['res'] != 1:
+            ctx.fail('access-after-failed-accesses', key, expected=1, observed=ob[-1])
     if keep:
         ctx.sample(dict(model_case=keep[77][0], numpy=keep[77][1]))
     if cases and not isinstance(obs2[0], dict):
